@@ -260,8 +260,24 @@ func genMutants(repo string, files []string, ranges map[string][][2]int, max int
 	return all
 }
 
+// propertiesFile: properties.jsonl of the verif directory in use, else the one beside the checker binary's parent
+// directory (sub-processes run with a scratch verif directory).
+func propertiesFile(verif string) string {
+	p := filepath.Join(verif, "properties.jsonl")
+	if _, err := os.Stat(p); err == nil {
+		return p
+	}
+	if self, err := os.Executable(); err == nil {
+		q := filepath.Join(filepath.Dir(filepath.Dir(self)), "properties.jsonl")
+		if _, err := os.Stat(q); err == nil {
+			return q
+		}
+	}
+	return p
+}
+
 func anchorFiles(verif, prop string) []string {
-	b, err := os.ReadFile(filepath.Join(verif, "properties.jsonl"))
+	b, err := os.ReadFile(propertiesFile(verif))
 	if err != nil {
 		return nil
 	}
@@ -286,7 +302,7 @@ func anchorFiles(verif, prop string) []string {
 // The numbers refer to the pinned tree; later commits shift them a little, hence the slack at use.
 func anchorRanges(verif, prop string) map[string][][2]int {
 	out := map[string][][2]int{}
-	b, err := os.ReadFile(filepath.Join(verif, "properties.jsonl"))
+	b, err := os.ReadFile(propertiesFile(verif))
 	if err != nil {
 		return out
 	}
@@ -363,6 +379,9 @@ func runSweep(c *Ctx, spec *propSpec, seed int64) {
 			os.WriteFile(mf, m.src, 0o644)
 			if b, err := os.ReadFile(filepath.Join(c.Verif, "known_findings.json")); err == nil {
 				os.WriteFile(filepath.Join(tmp, "known_findings.json"), b, 0o644)
+			}
+			if b, err := os.ReadFile(propertiesFile(c.Verif)); err == nil {
+				os.WriteFile(filepath.Join(tmp, "properties.jsonl"), b, 0o644)
 			}
 			cmd := exec.Command(self, "-prop", spec.id, "-tier", "quick", "-repo", c.Repo, "-verif", tmp, "-nofixtures", "-overlay", m.file+"="+mf)
 			var out bytes.Buffer
